@@ -14,7 +14,7 @@ Panic source (F4): `write!(w, "{}", now.format(fmt))` — std's `io::Write::writ
 `Display` implementation fails although the sink reported no I/O error, and chrono's
 `DelayedFormat` fails on a format string it cannot parse. Nothing of the date is written before.
 -/
-namespace Log4rs.Pattern
+namespace Log4rs.Pattern.Parse
 
 structure Record where
   /-- `log::Level`: 1 = Error … 5 = Trace -/
@@ -107,6 +107,69 @@ def encList (env : Env) (r : Record) : List Chunk → Outcome Unit Out
     | .panic w => .panic w
 end
 
+/-! The same encoder split into "which date formats get rendered" and "the operations when none of
+them fails" (`Pattern/EncodeLemmas.lean` proves the decomposition). -/
+
+mutual
+/-- the (format, utc?) pairs whose rendering the encode actually asks chrono for: groups of the
+non-matching build profile are skipped -/
+def renderedTimes (env : Env) : Chunk → List (List Char × Bool)
+  | .text _ => []
+  | .error _ => []
+  | .leaf k _ =>
+    match k with
+    | .time fmt utc => [(fmt, utc)]
+    | _ => []
+  | .group g cs _ =>
+    match g with
+    | .debug => if env.debugBuild then renderedTimesL env cs else []
+    | .release => if env.debugBuild then [] else renderedTimesL env cs
+    | _ => renderedTimesL env cs
+def renderedTimesL (env : Env) : List Chunk → List (List Char × Bool)
+  | [] => []
+  | c :: cs => renderedTimes env c ++ renderedTimesL env cs
+end
+
+mutual
+/-- all (format, utc?) pairs of the time chunks, at any depth -/
+def timesOf : Chunk → List (List Char × Bool)
+  | .text _ => []
+  | .error _ => []
+  | .leaf k _ =>
+    match k with
+    | .time fmt utc => [(fmt, utc)]
+    | _ => []
+  | .group _ cs _ => timesOfL cs
+def timesOfL : List Chunk → List (List Char × Bool)
+  | [] => []
+  | c :: cs => timesOf c ++ timesOfL cs
+end
+
+/-- text of a childless formatter when chrono accepts the format -/
+def leafTextPure (env : Env) (r : Record) (k : Leaf) : List Char :=
+  match k with
+  | .time fmt utc => env.dateText fmt utc
+  | k => match leafText env r k with
+    | .ok t => t
+    | _ => []
+
+mutual
+/-- the operations of a chunk when no date format fails -/
+def opsChunk (env : Env) (r : Record) : Chunk → Out
+  | .text s => ofText s
+  | .error e => ofText (errorMarker e)
+  | .leaf k p => codeFmtOps p (ofText (leafTextPure env r k))
+  | .group g cs p =>
+    match g with
+    | .align => codeFmtOps p (opsList env r cs)
+    | .highlight => codeFmtOps p (wrapHighlight r.level (opsList env r cs))
+    | .debug => codeFmtOps p (if env.debugBuild then opsList env r cs else [])
+    | .release => codeFmtOps p (if env.debugBuild then [] else opsList env r cs)
+def opsList (env : Env) (r : Record) : List Chunk → Out
+  | [] => []
+  | c :: cs => opsChunk env r c ++ opsList env r cs
+end
+
 /-- `PatternEncoder::new` -/
 def newEncoder (cc : CharClass) (P : Profile) (pattern : List Char) : Outcome Unit (List Chunk) :=
   omap compileL (parse cc P pattern)
@@ -118,4 +181,4 @@ def run (cc : CharClass) (P : Profile) (env : Env) (r : Record) (pattern : List 
   | .err e => .err e
   | .panic w => .panic w
 
-end Log4rs.Pattern
+end Log4rs.Pattern.Parse
